@@ -96,6 +96,7 @@ func buildHarness(sp *spec, scratch string, race bool) (string, error) {
 					RuntimeImport: modPath + "/internal/zzverif/vsched",
 					SyncImport:    modPath + "/internal/zzverif/vsync",
 					StmtPoints:    sp.StmtPoints,
+					AtomicRanges:  sp.AtomicRanges,
 				})
 				if err != nil {
 					return "", fmt.Errorf("instrument %s: %w", src, err)
